@@ -16,6 +16,18 @@ Next == UNCHANGED i
 
 Announced(r) == IF "announced" \in DOMAIN r THEN {r.announced[k] : k \in 1..Len(r.announced)} ELSE {}
 
+\* Whether a frame "cannot be decoded" is the parser's verdict.  When the specification's run fails on a frame whose control
+\* field IS in the reply set (a malformed body), an implementation that reads that body more leniently has not broken the
+\* property: verdicts that rest on the classification are then marked ambiguous (model drift).
+Ambiguous(r, exp) ==
+  /\ Idx(exp.log, IsErr) # {}
+  /\ exp.next >= 2 /\ exp.next - 1 <= Len(r.frames)
+  /\ LET f == r.frames[exp.next - 1]
+         parser == IF exp.next - 1 = 1 THEN "Ack" ELSE SeqOf(r.cmd).parser IN
+     ~f.trunc /\ Len(f.bytes) >= 2 /\ VariantFor(parser, f.bytes[1] * 256 + f.bytes[2]) # ""
+     /\ ~(r.cmd = "WriteFile" /\ ParseEnum(parser, f.bytes).ok)      \* an unanswerable data request is not a matter of decoding
+Amb(r, exp, f) == IF Ambiguous(r, exp) THEN f \o "-ambiguous" ELSE f
+
 Flags(r) ==
   IF r.note # "" THEN {"abnormal:" \o r.note}
   ELSE LET exp == Run(Start(r.cmd, r.frames, Announced(r))) IN
@@ -30,9 +42,9 @@ Flags(r) ==
             \cup (IF NoAnswerForBadFrame(r.obs) THEN {} ELSE {"P06-answered-bad-frame"})
             \cup (IF EndsOnce(r.obs) /\ Idx(r.obs, IsEnd) # {} THEN {} ELSE {"P06-end"})
             \* what the script demanded: delivered items and errors as the specification computes them from the bytes
-            \cup (IF Cardinality(Idx(r.obs, IsOk)) = Cardinality(Idx(exp.log, IsOk)) THEN {} ELSE {"P05-delivered-count"})
-            \cup (IF Cardinality(Idx(r.obs, IsErr)) = Cardinality(Idx(exp.log, IsErr)) THEN {} ELSE {"P06-error-count"})
-            \cup (IF r.obs_left = Left(exp) THEN {} ELSE {"P05-bytes-left"})
+            \cup (IF Cardinality(Idx(r.obs, IsOk)) = Cardinality(Idx(exp.log, IsOk)) THEN {} ELSE {Amb(r, exp, "P05-delivered-count")})
+            \cup (IF Cardinality(Idx(r.obs, IsErr)) = Cardinality(Idx(exp.log, IsErr)) THEN {} ELSE {Amb(r, exp, "P06-error-count")})
+            \cup (IF r.obs_left = Left(exp) THEN {} ELSE {Amb(r, exp, "P05-bytes-left")})
 
 Judge == LET f == Flags(Recs[i]) IN f = {} \/ PrintT(<<"FLAGS", i, ToJson(f)>>)
 =============================================================================
